@@ -539,6 +539,26 @@ func (x *c15run) one(rec *c15rec, cmd string, flags []string, locstr string, r *
 		}
 		x.env.ResetCache()
 		x.env.Run(sib, stdin, nil, 60*time.Second)
+		if cmd == "extract" && loc2 != "" && loc2 != locstr {
+			// the same locators in the other order.
+			swp := append([]string{}, main...)
+			for i := range swp {
+				if swp[i] == locstr && i+1 < len(swp) && swp[i+1] == loc2 {
+					swp[i], swp[i+1] = loc2, locstr
+					break
+				}
+			}
+			x.env.Run(swp, stdin, nil, 60*time.Second)
+			c.Bucket("cache-on:after-swapped-locators")
+		}
+		// the same command line on a slightly different input.
+		otherIn := bytes.Replace(stdin, []byte("DEFINITION  "), []byte("DEFINITION  another "), 1)
+		if bytes.Equal(otherIn, stdin) && len(stdin) > 2 && stdin[0] == '>' {
+			otherIn = append([]byte(">another "), stdin[1:]...)
+		}
+		if !bytes.Equal(otherIn, stdin) {
+			x.env.Run(main, otherIn, nil, 60*time.Second)
+		}
 		// and the same command line with other content in the file it names.
 		for fn, fb := range files {
 			other := bytes.Replace(fb, []byte("DEFINITION  generated"), []byte("DEFINITION  another record"), 1)
